@@ -13,6 +13,7 @@ import numpy as np
 from ..target import eqsig, displacements, im
 from ..result import Res
 from ..compare import words
+from . import c04
 
 SIGMA = (-2, -1, 0, 1, 2)
 DTS = (0.005, 0.01, 0.5, 1.0)
@@ -28,7 +29,7 @@ def build(tier, seed):
                 'generator}; non-trivial = word not identically zero' % (L, list(DTS)),
         'bounds': {'alphabet': SIGMA, 'max_len': L, 'dt': DTS, 'trap': [True, False]},
         'required_classes': ['trap', 'rect', 'const-acc', 'linear-acc', 'neg-peak-dominant', 'pos-peak-dominant',
-                             'prefix-edge', 'int-input', 'object-reused'],
+                             'prefix-edge', 'int-input', 'object-reused', 'dtype-variant', 'extreme-scale', 'object-after-edit', 'object-after-query'],
         'assumptions': ['sample values outside {-2..2} and lengths above the bound are not examined',
                         'dt only on the menu', 'reference: exact rational cumulative sums (fractions.Fraction)'],
     }
@@ -212,6 +213,79 @@ def run_case(w):
                 if ok:
                     r.expect_close('peaks.calc_peak', dict(s2, series=nm), out, float(np.max(np.abs(arr))), rtol=1e-12,
                                    atol=1e-300)
+    # ---- containers / dtypes of the record for the peaks (unsigned: a negated minimum wraps around) and extreme scales
+    shifted = [int(x) + 2 for x in w]                      # {0..4}
+    for nm, arr in (('uint8', np.array(shifted, dtype=np.uint8)), ('uint16', np.array(shifted, dtype=np.uint16)), ('int8', np.array(w, dtype=np.int8)),
+                    ('float32', np.array(w, dtype=np.float32))):
+        vals = shifted if nm.startswith('uint') else w
+        want_pk = float(max(abs(x) for x in vals))
+        sub = {'w': w, 'input': nm}
+        r.cls('dtype-variant')
+        ok, out = r.call('peaks', sub, im.calc_peak, arr)
+        if ok:
+            r.expect_close('peaks.calc_peak', sub, out, want_pk, rtol=1e-12, atol=1e-300)
+        ok, out = r.call('peaks', sub, lambda: eqsig.AccSignal(arr, 0.01).pga)
+        if ok:
+            r.expect_close('peaks.object', sub, out, want_pk, rtol=1e-12, atol=1e-300)
+    if n <= 5 and nz:
+        for scale in (1e-9, 1e9):
+            sub = {'w': w, 'dt': 0.01, 'scale': scale}
+            vref, dref = ref_series(w, 0.01, True)
+            ok, out = r.call('scaling', sub, displacements.calc_velo_and_disp_from_accel_arr, np.array(w, dtype=float) * scale, 0.01)
+            if ok:
+                r.cls('extreme-scale')
+                try:
+                    r.expect_close('scaling.velocity', sub, out[0], fl(vref) * scale, rtol=1e-9, atol=0)
+                    r.expect_close('scaling.displacement', sub, out[1], fl(dref) * scale, rtol=1e-9, atol=0)
+                except Exception as e:
+                    r.fail('scaling', sub, 'malformed result: %s' % e, observed=out)
+    # ---- the object after other public queries on it (functions that read the cached series must not edit them)
+    if n <= 4 and nz:
+        vref, dref = ref_series(w, 0.01, True)
+        for qname in ('calc_unit_kinetic_energy', 'calc_isv', 'calc_integral_of_abs_velocity', 'calc_cumulative_abs_displacement', 'calc_cav',
+                      'calc_arias_intensity', 'calc_integral_of_abs_acceleration'):
+            sub = {'w': w, 'after_query': 'im.' + qname}
+
+            def after_query():
+                s = eqsig.AccSignal(np.array(w, dtype=float), 0.01)
+                getattr(im, qname)(s)
+                return s.velocity, s.displacement, s.pgv, s.pgd
+            ok, out = r.call('object-after-query', sub, after_query)
+            if ok:
+                r.cls('object-after-query')
+                try:
+                    r.expect_close('object-after-query.velocity', sub, out[0], fl(vref), rtol=1e-9, atol=1e-300)
+                    r.expect_close('object-after-query.displacement', sub, out[1], fl(dref), rtol=1e-9, atol=1e-300)
+                    r.expect_close('object-after-query.peaks', sub, out[2:], (float(max(abs(x) for x in vref)), float(max(abs(x) for x in dref))), rtol=1e-9, atol=1e-300)
+                except Exception as e:
+                    r.fail('object-after-query', sub, 'malformed: %s' % e)
+    # ---- the object after every public edit: velocity / displacement / peaks are the integrals and peaks of the CURRENT record
+    if n == 4 and nz:
+        rec = np.array((list(w) * 6)[:20], dtype=float)       # tiled: the filters need some length
+        ops, kind = c04.build_ops('AccSignal')
+        for name, op in ops.items():
+            if kind[name][0] != 'mut':
+                continue
+            sub = {'w': w, 'after': name}
+            s = eqsig.AccSignal(rec.copy(), 0.01)
+            s._mc_n0 = len(rec)
+            try:
+                s.pga, s.pgv, s.pgd        # everything derived is cached before the edit
+                op(s)
+            except Exception:
+                r.disabled['%s raises on the tiled record' % name] += 1
+                continue
+            try:
+                cur = np.asarray(s.values, dtype=float)
+                dt_ = 0.01
+                v_ = np.concatenate([[0.0], np.cumsum((cur[1:] + cur[:-1]) * dt_ / 2)])
+                d_ = np.concatenate([[0.0], np.cumsum((v_[1:] + v_[:-1]) * dt_ / 2)])
+                r.cls('object-after-edit')
+                r.expect_close('object-after-edit.velocity', sub, s.velocity, v_, rtol=1e-9, atol=1e-300)
+                r.expect_close('object-after-edit.displacement', sub, s.displacement, d_, rtol=1e-9, atol=1e-300)
+                r.expect_close('object-after-edit.peaks', sub, (s.pga, s.pgv, s.pgd), (np.max(np.abs(cur)), np.max(np.abs(v_)), np.max(np.abs(d_))), rtol=1e-9, atol=1e-300)
+            except Exception as e:
+                r.fail('object-after-edit', sub, 'cannot read the object after %s: %s' % (name, e))
     return r
 
 
